@@ -15,11 +15,11 @@ FILEMAP = [
     ("src/Residual/", ["C03"]),
     ("src/DirectSolver/DirectSolverGiveCustomLU/", ["C04"]),
     ("src/DirectSolver/DirectSolverTakeCustomLU/", ["C04"]),
-    ("src/Smoother/SmootherGive/buildMatrix", ["C06"]), ("src/Smoother/SmootherGive/smootherSolver", ["C06"]), ("src/Smoother/SmootherGive/matrixStencil", ["C06"]),
-    ("src/Smoother/SmootherTake/buildMatrix", ["C06"]), ("src/Smoother/SmootherTake/smootherSolver", ["C06"]), ("src/Smoother/SmootherTake/matrixStencil", ["C06"]),
-    ("src/ExtrapolatedSmoother/ExtrapolatedSmootherGive/buildAscMatrices", ["C07"]), ("src/ExtrapolatedSmoother/ExtrapolatedSmootherGive/smootherSolver", ["C07"]),
+    ("src/Smoother/SmootherGive/buildMatrix", ["C06", "C05"]), ("src/Smoother/SmootherGive/smootherSolver", ["C06"]), ("src/Smoother/SmootherGive/matrixStencil", ["C06"]),
+    ("src/Smoother/SmootherTake/buildMatrix", ["C06", "C05"]), ("src/Smoother/SmootherTake/smootherSolver", ["C06"]), ("src/Smoother/SmootherTake/matrixStencil", ["C06"]),
+    ("src/ExtrapolatedSmoother/ExtrapolatedSmootherGive/buildAscMatrices", ["C07", "C05"]), ("src/ExtrapolatedSmoother/ExtrapolatedSmootherGive/smootherSolver", ["C07"]),
     ("src/ExtrapolatedSmoother/ExtrapolatedSmootherGive/smootherStencil", ["C07"]),
-    ("src/ExtrapolatedSmoother/ExtrapolatedSmootherTake/buildAscMatrices", ["C07"]), ("src/ExtrapolatedSmoother/ExtrapolatedSmootherTake/smootherSolver", ["C07"]),
+    ("src/ExtrapolatedSmoother/ExtrapolatedSmootherTake/buildAscMatrices", ["C07", "C05"]), ("src/ExtrapolatedSmoother/ExtrapolatedSmootherTake/smootherSolver", ["C07"]),
     ("src/ExtrapolatedSmoother/ExtrapolatedSmootherTake/smootherStencil", ["C07"]),
     ("src/Interpolation/fmg_interpolation", ["C09"]),
     ("src/Interpolation/", ["C08"]),
